@@ -1,6 +1,7 @@
 package main
 
 import (
+	"fmt"
 	"go/types"
 	"strings"
 
@@ -66,11 +67,30 @@ func (st *solveState) exitSummary(call *ssa.Call, callee *ssa.Function) bool {
 		}
 	}
 	var feasible []*ssa.Return
-	for _, ret := range returnsOf(callee) {
-		if ret.Block() == callee.Recover || len(ret.Results) != nres {
+	for _, ret := range e.flatExits(callee, 0) {
+		if len(ret.Results) != nres {
 			continue
 		}
 		ok := true
+		// constant integer results that contradict what the path knows about the results (start < end excludes
+		// the exit that returns -1, -1)
+		var eqs []Ineq
+		for i := 0; i < nres; i++ {
+			r := result(i)
+			if r == nil || !isIntegerType(r.Type()) {
+				continue
+			}
+			if k, isK := constInt(unspill(ret.Results[i])); isK {
+				x := Ineq{st.substLin(e.expand(r))}.L
+				eqs = append(eqs, geq(x, linConst(k)), leq(x, linConst(k)))
+			}
+		}
+		if len(eqs) > 0 {
+			e.nFM++
+			if fmUnsat(append(append([]Ineq{}, st.fs.ineqs...), eqs...)) {
+				ok = false
+			}
+		}
 		for i, k := range kn {
 			rv := unspill(ret.Results[i])
 			if k.isBool {
@@ -91,8 +111,45 @@ func (st *solveState) exitSummary(call *ssa.Call, callee *ssa.Function) bool {
 			feasible = append(feasible, ret)
 		}
 	}
-	if len(feasible) != 1 {
+	if len(feasible) == 0 {
 		return false
+	}
+	// facts proved at every feasible exit (in the function that owns the exit): result >= 0, result_i <= result_j
+	{
+		var common map[string]bool
+		for _, ret := range feasible {
+			fs := e.exitFacts(ret)
+			if common == nil {
+				common = map[string]bool{}
+				for k := range fs {
+					common[k] = true
+				}
+			} else {
+				for k := range common {
+					if !fs[k] {
+						delete(common, k)
+					}
+				}
+			}
+		}
+		for i := 0; i < nres; i++ {
+			ri := result(i)
+			if ri == nil || !isIntegerType(ri.Type()) {
+				continue
+			}
+			if common[fmt.Sprintf("ge0:%d", i)] {
+				st.addIneq(geq(e.expand(ri), linConst(0)))
+			}
+			for j := 0; j < nres; j++ {
+				rj := result(j)
+				if j != i && rj != nil && isIntegerType(rj.Type()) && common[fmt.Sprintf("le:%d:%d", i, j)] {
+					st.addIneq(leq(e.expand(ri), e.expand(rj)))
+				}
+			}
+		}
+	}
+	if len(feasible) != 1 || feasible[0].Parent() != callee {
+		return true
 	}
 	ret := feasible[0]
 	// rewrite helper parameters to the arguments of this call
@@ -167,4 +224,59 @@ func (ev *gEnv) boolSym(name string) cT {
 func isBoolType(t types.Type) bool {
 	b, ok := t.Underlying().(*types.Basic)
 	return ok && b.Info()&types.IsBoolean != 0
+}
+
+// flatExits: the returns through which a call of fn can come back, with `return g(...)` of a loop-free module
+// function replaced by g's own returns (Offset dispatching to offset_big / offset_small).
+func (e *BE) flatExits(fn *ssa.Function, depth int) []*ssa.Return {
+	var out []*ssa.Return
+	for _, ret := range returnsOf(fn) {
+		if ret.Block() == fn.Recover {
+			continue
+		}
+		if call := tailCallOf(ret); call != nil && depth < 3 {
+			if g := e.c.calleeOf(&call.Call); g != nil && g.Blocks != nil && g.Pkg != nil && strings.HasPrefix(g.Pkg.Pkg.Path(), Mod) && loopFree(g) && len(g.Blocks) <= 40 {
+				if c := e.contractFor(g); c == nil || (!c.Axiom && len(c.Post)+len(c.PostOK)+len(c.Locality) == 0) {
+					out = append(out, e.flatExits(g, depth+1)...)
+					continue
+				}
+			}
+		}
+		out = append(out, ret)
+	}
+	return out
+}
+
+// exitFacts: which of the candidate facts  result_i >= 0,  result_i <= result_j  hold at this return, proved in the
+// context of the function that owns it (memoised).
+func (e *BE) exitFacts(ret *ssa.Return) map[string]bool {
+	if e.exitMemo == nil {
+		e.exitMemo = map[*ssa.Return]map[string]bool{}
+	}
+	if m, ok := e.exitMemo[ret]; ok {
+		return m
+	}
+	m := map[string]bool{}
+	e.exitMemo[ret] = m // recursion guard: nothing assumed while proving
+	fn := ret.Parent()
+	fc := e.newFnCtx(fn)
+	for i, ri := range ret.Results {
+		if !isIntegerType(ri.Type()) {
+			continue
+		}
+		budget := 200
+		if fc.prove(geq(e.expand(ri), linConst(0)), ret.Block(), nil, nil, 4, &budget) {
+			m[fmt.Sprintf("ge0:%d", i)] = true
+		}
+		for j, rj := range ret.Results {
+			if j == i || !isIntegerType(rj.Type()) {
+				continue
+			}
+			budget := 200
+			if fc.prove(leq(e.expand(ri), e.expand(rj)), ret.Block(), nil, nil, 4, &budget) {
+				m[fmt.Sprintf("le:%d:%d", i, j)] = true
+			}
+		}
+	}
+	return m
 }
